@@ -64,12 +64,21 @@ class Session:
         self.records.append(kw)
         return kw
 
-    def prove(self, name, assumptions, neg_goal, timeout=30.0, key=None, payload=None, describe=None, want_smt2=False, split=True):
+    def prove(self, name, assumptions, neg_goal, timeout=30.0, key=None, payload=None, describe=None, want_smt2=False, split=True, ackermann=True):
         """Obligation: assumptions /\\ neg_goal must be unsat.
         payload(model) -> jsonable dict handed to the property's replay() when sat."""
         from . import lower
 
         try:
+            if not ackermann:
+                # first without congruence constraints for uninterpreted applications
+                # (fewer constraints: an unsat answer is still valid); retry with them otherwise
+                r0 = lower.solve(list(assumptions) + [neg_goal], timeout, want_smt2=want_smt2, ackermann=False)
+                if r0.status == "unsat":
+                    rec = self._rec(kind="obligation", name=name, key=key or name, status="unsat", seconds=round(r0.seconds, 4), describe=describe)
+                    if want_smt2 and r0.smt2:
+                        rec["smt2"] = r0.smt2
+                    return rec
             if neg_goal.op == "or" and split:
                 # a disjunctive negated goal is decided disjunct by disjunct
                 # (each is a single polynomial (in)equality: much easier for nlsat)
@@ -121,8 +130,14 @@ class Session:
         """A deliberately wrong oracle: must come back sat."""
         from . import lower
 
-        r = lower.solve(list(assumptions) + [neg_goal], timeout)
-        return self._rec(kind="mutant", name=name, status=r.status, seconds=round(r.seconds, 4))
+        r = lower.solve(list(assumptions) + [neg_goal], min(timeout, 20.0))
+        status = r.status
+        how = "solver"
+        if status == "unknown":
+            # a satisfying assignment found by evaluation is as good a witness
+            if _random_witness(list(assumptions) + [neg_goal]):
+                status, how = "sat", "evaluation"
+        return self._rec(kind="mutant", name=name, status=status, seconds=round(r.seconds, 4), how=how)
 
     def concrete(self, name, ok, key=None, payload=None, describe=None):
         """A finite, concretely evaluated comparison (reported as such)."""
@@ -153,6 +168,62 @@ class Session:
 
     def outside(self, name, reason):
         return self._rec(kind="outside", name=name, reason=reason)
+
+
+def _random_witness(assertions, tries=200, seed=1):
+    """try to satisfy the conjunction by random rational assignments
+    (uninterpreted applications get independent random values)"""
+    import random
+
+    from . import term as T
+
+    rnd = random.Random(seed)
+    terms = T.postorder(assertions)
+    vs = [t for t in terms if t.op == "var"]
+    ufs = {}
+    for t in terms:
+        if t.op == "uf":
+            ufs.setdefault(t.args[0], None)
+    for _ in range(tries):
+        env = {}
+        for v in vs:
+            if v.sort == "B":
+                env[v] = rnd.random() < 0.5
+            elif v.sort == "I":
+                env[v] = rnd.randint(-3, 6)
+            else:
+                env[v] = rnd.choice([rnd.uniform(0.1, 2.0), rnd.uniform(-2.0, 2.0)])
+        table = {}
+
+        def mk(name):
+            def f(*a):
+                key = (name,) + tuple(round(float(x), 12) for x in a)
+                if key not in table:
+                    table[key] = rnd.uniform(0.2, 2.0)
+                return table[key]
+
+            return f
+
+        fns = {n: mk(n) for n in ufs}
+        fns.update({"log": lambda x: __import__("math").log(x) if x > 0 else 0.0, "exp": lambda x: __import__("math").exp(min(x, 50))})
+        try:
+            # defining equalities  var == term  are satisfied by construction
+            for _round in range(3):
+                for a in assertions:
+                    eqs = a.args if a.op == "and" else (a,)
+                    for e in eqs:
+                        if e.op == "cmp" and e.args[0] == "==":
+                            l, r = e.args[1], e.args[2]
+                            if l.op == "var" and l.sort != "B":
+                                env[l] = T.evaluate(r, env, ufs=fns)
+                            elif r.op == "var" and r.sort != "B":
+                                env[r] = T.evaluate(l, env, ufs=fns)
+            vals = T.evaluate(list(assertions), env, ufs=fns)
+        except Exception:
+            continue
+        if all(bool(x) for x in vals):
+            return True
+    return False
 
 
 # ------------------------------------------------------------------ worker side
@@ -222,6 +293,12 @@ def _worker_run(args):
 
 
 def _worker_loop(conn, pid, repo):
+    try:
+        import ctypes
+
+        ctypes.CDLL("libc.so.6").prctl(1, 9)  # die with the parent
+    except Exception:
+        pass
     # the code under analysis prints progress messages: keep stdout for verdict lines only
     try:
         devnull = open(os.devnull, "w")
